@@ -305,6 +305,17 @@ def run(ctx):
             continue
         cfile = [n for n in files if n.endswith('.c')]
         syms = []
+        # the shorthand macro of the default data stream type must survive the --prefix override
+        hfile = [n for n in files if n.endswith('.h') and 'bitfield' not in n]
+        if len(hfile) == 1:
+            htxt = open(os.path.join(d, hfile[0])).read()
+            want = '#define %strace_e %ss_trace_e' % (pv, pv)
+            if want not in htxt:
+                ctx.violation('with --prefix=%s the generated header lacks the shorthand macro of the default data stream type (%r)' % (pv, want),
+                              {'yaml': G.yaml_text(doc), 'cli': 'barectf generate --prefix=' + pv, 'header_defines': [l for l in htxt.splitlines() if l.startswith('#define')][:20]})
+            if '#define _BARECTF_DEFAULT_DATA_STREAM_TYPE_NAME s' not in htxt:
+                ctx.violation('with --prefix=%s the generated header lacks the default data stream type name definition' % pv,
+                              {'yaml': G.yaml_text(doc), 'cli': 'barectf generate --prefix=' + pv})
         if len(cfile) == 1:
             obj = os.path.join(d, 'o.o')
             rc, out = bt.cc(['-c', '-I', d, os.path.join(d, cfile[0]), '-o', obj], cwd=d)
